@@ -467,7 +467,21 @@ void MEDDLY::ct_entry_type::removeAllCTEntriesWithForest(const forest* f)
         // Still here?
         // We have an operation cache that uses forest f.
         // Clear it.
-        all_entries[i]->CT->removeAll();
+        // If the entry type is waiting to be destroyed when empty,
+        // hold that off until the table is done removing entries:
+        // destroying the entry type destroys the table we are clearing.
+        //
+        ct_entry_type* et = all_entries[i];
+        const bool destroy_after = et->destroyWhenEmpty;
+        et->destroyWhenEmpty = false;
+        et->CT->removeAll();
+        if (destroy_after) {
+            if (0 == et->numEntries) {
+                delete et;
+            } else {
+                et->destroyWhenEmpty = true;
+            }
+        }
     }
 }
 
